@@ -586,6 +586,15 @@ def c01_6(ctx, ss):
             (ctx.holds if okall else ctx.violation)("C01.6", ckey(ff, None, "all-duplicates"), where(ff, init[0].stmt),
                                                     "removals are scheduled for every mother that occurs more than once" if okall
                                                     else f"removals are scheduled over `{src[:120]}`: some repeated mothers keep all their blocks")
+            # the set of duplicated names must be computed whenever there are duplicates (same clause as in the loop form above)
+            dd = [d for d in flow.defs if isinstance(g1.iter, ast.Name) and d.name == g1.iter.id and d.kind == "assign" and isinstance(d.value, ast.SetComp)]
+            for d in dd:
+                c2 = [(txt(flow.expand(e)), pol) for kind, e, pol in guards.path_conditions(ff.node, d.stmt) if kind == "if"]
+                okd = c2 in ([], [(f"self.number_of_decays == len(set({names_src}))", False)], [(f"len({names_src}) == len(set({names_src}))", False)],
+                             [(f"len(self._parsed_decays) == len(set({names_src}))", False)])
+                (ctx.holds if okd else ctx.violation)("C01.6", ckey(ff, None, "duplicates-computed"), where(ff, d.stmt),
+                                                      "the duplicated names are computed whenever the number of tables exceeds the number of distinct mothers" if okd
+                                                      else f"the duplicated names are only computed under {c2}")
         multi = bool(init) and all(isinstance(d.value, ast.List) or (isinstance(d.value, ast.Call) and txt(d.value.func) in ("list", "Counter", "collections.Counter")) or isinstance(d.value, ast.ListComp) for d in init)
         if okc and multi:
             ctx.holds("C01.6", ckey(ff, None, "count-1"), where(ff, ff.node), "count-1 removals are scheduled per repeated mother (in a list, which keeps multiplicities)", 2)
